@@ -1681,3 +1681,11 @@ package compose
 //@   loop 2:
 //@     modifies fresh()
 //@     invariant[fresh] (ret == nil || fresh(ret)) && len(ret) >= len(c.writeTo) + len(c.controls)
+
+//@ func instantiateIfNeeded
+//@   props C15
+//@   skip safe
+//@   note reflect.Value operations are opaque; what is checked is that a pointer or map on a target path is instantiated only when it is nil, so values assigned by earlier mappings through the same intermediate field are kept
+//@   ghost wasNil bool = false
+//@   after call field.IsNil: ghost wasNil = result
+//@   at call field.Set: assert[existing_values_are_kept] @C15 wasNil
